@@ -7,7 +7,7 @@ import traceback
 
 from .model import Repo, AnalysisError
 from .report import Ctx, finish
-from . import selftest, mutate
+from . import selftest, mutate, corpus
 
 REPO_ROOT = os.environ.get("VERIF_REPO", "/repo")
 
@@ -62,6 +62,8 @@ def main(argv):
             extra["mutation_sweep"] = sw
             if sw.get("crashed"):
                 ctx.error(f"mutation sweep: the checker crashed on {sw['crashed']} mechanically mutated variant(s) of the anchored code")
+        if REPO_ROOT == "/repo" or os.environ.get("VERIF_CORPUS") == "1":
+            extra["corpus"] = corpus.run(mod, repo, pid, ctx)
     return finish(ctx, mod.META, extra)
 
 
